@@ -19,7 +19,7 @@ RULE = (
 ASSUMPTIONS = ["refcal validity of the enumerated dates", "two-digit years are written only for 2000-2029 (the code's fixed 20yy window in dd.mm.yy)"]
 
 SUFFIX = {1: "st", 2: "nd", 3: "rd", 21: "st", 22: "nd", 23: "rd", 31: "st"}
-CLOCKS = [("00:00", 0, 0), ("0:05", 0, 5), ("09:30", 9, 30), ("01:00", 1, 0), ("12:05", 12, 5), ("12:00", 12, 0), ("14:30", 14, 30), ("23:59", 23, 59), ("5pm", 17, 0), ("8 uhr", 8, None)]
+CLOCKS = [("00:00", 0, 0), ("0:05", 0, 5), ("09:30", 9, 30), ("01:00", 1, 0), ("12:05", 12, 5), ("12:00", 12, 0), ("14:30", 14, 30), ("23:59", 23, 59), ("5pm", 17, 0), ("8 uhr", 8, None), ("17 uhr", 17, None)]
 
 
 def _ord(n):
@@ -88,6 +88,10 @@ def plan(tier, seed):
                     for ts in ts_list[:2]:
                         yield ("dt", key, text + " " + ctext, (d.year, d.month, d.day), (h, mi), ts)
                         yield ("td", key, ctext + " " + text, (d.year, d.month, d.day), (h, mi), ts)
+                        if ctext.endswith("uhr") and ts == ts_list[0]:
+                            # connector + 'N uhr' directly in front of the date (the number behind 'uhr' is the day, not a minute)
+                            yield ("td", key, "um " + ctext + " " + text, (d.year, d.month, d.day), (h, mi), ts)
+                            yield ("td", key, "at " + ctext + " " + text, (d.year, d.month, d.day), (h, mi), ts)
                     # date, comma, clock ('05.03.2019, 14:30')
                     yield ("dt", key, text + ", " + ctext, (d.year, d.month, d.day), (h, mi), ts_list[0])
         # the valid notation straight after a look-alike in which ONE blank is an unmatched character ('05.03.2019@09:30', '23 April_2018'):
